@@ -79,9 +79,43 @@ def same_obj(x, y):
     return x is y or monitors.freeze(x) == monitors.freeze(y)
 
 
+def set_keywords(case, ctx, rng):
+    """Axis.set / DimArray.set_axis / Dataset.set_axis store their extra key-words with setattr: a public name enters the axis' attrs,
+    a class member (tol) is set as such and stays out of attrs"""
+    da = __import__("vp.boot", fromlist=["boot"]).boot()
+    cls = case["cls"]
+    o, dims = make_obj('DimArray' if cls == 'Axis' else cls, case["a"])
+    d = rng.choice(dims)
+    by = rng.choice(['name', 'pos'])
+    axarg = d if by == 'name' else list(o.dims).index(d)
+    pub = rng.choice([n for n in PUBLIC if n not in dims and not hasattr(da.Axis, n)])
+    tol = rng.choice([0.05, 0.5, 2])
+    if cls == 'Axis':
+        label, fn = "Axis.set(%s=..., tol=%r)" % (pub, tol), lambda: o.axes[d].set(**{pub: 'v1', 'tol': tol})
+    else:
+        label, fn = "%s.set_axis(axis=%r, %s=..., tol=%r)" % (cls, axarg, pub, tol), lambda: o.set_axis(axis=axarg, **{pub: 'v1', 'tol': tol})
+    ctx.outcomes['routing-steps'] += 1
+    ctx.outcomes['set-keyword-steps'] += 1
+    before = dict(o.axes[d].attrs)
+    try:
+        fn()
+    except Exception as e:
+        ctx.v(ID, "routing:set-keywords-raised", "%s raised %s: %s" % (label, type(e).__name__, str(e)[:120]))
+        return
+    ax = o.axes[d]
+    exp = dict(before)
+    exp[pub] = 'v1'
+    if monitors.freeze(dict(ax.attrs)) != monitors.freeze(exp):
+        ctx.v(ID, "routing:set-keywords-attrs", "%s: the axis' attrs are %r, expected %r (class members such as tol never enter attrs)" % (label, dict(ax.attrs), exp))
+    if ax.tol != tol:
+        ctx.v(ID, "routing:set-keywords-member", "%s: axis.tol is %r" % (label, ax.tol))
+
+
 def routing(case, ctx):
     import random
     rng = random.Random(case["pick"])
+    if case["pick"] % 10 == 0:
+        return set_keywords(case, ctx, rng)
     cls, nk, v = case["cls"], case["namekind"], case["value"]
     o, dims = make_obj(cls, case["a"])
     C = type(o)
@@ -246,6 +280,9 @@ def propagation(case, ctx):
             ("compress_axis", 'carry', lambda a: a.compress_axis(mask, axis=d), d),
             ("reindex_axis", 'carry', lambda a: a.reindex_axis(some + [gen.absent_label(rng, lab, sp["kinds"][k])], axis=d), d),
             ("reindex_axis-self", 'carry', lambda a: a.reindex_axis(list(lab), axis=d), d),
+            # the requested labels come as an Axis with metadata of its own: the array's axis keeps its own
+            ("reindex_axis-Axis-missing", 'carry', lambda a: a.reindex_axis(da.Axis(some + [gen.absent_label(rng, lab, sp["kinds"][k])], d, vp_other='target', units='other')), d),
+            ("reindex_axis-Axis-present", 'carry', lambda a: a.reindex_axis(da.Axis(list(some), d, vp_other='target')), d),
             ("sort_axis", 'carry', lambda a: a.sort_axis(axis=d), None),
             ("transpose", 'carry', lambda a: a.transpose(list(reversed(a.dims))), None),
             ("swapaxes", 'carry', lambda a: a.swapaxes(0, k), None),
